@@ -81,6 +81,53 @@ func parse(text string) (*Call, bool) {
 		pre: c.Int("pre", 0), yield: c.Int("yield", 0), val: "nil", fresh: "-", err: "-"}, true
 }
 
+// SlowSF is a pass-through SingleFlight (it has the method set of syncx.SingleFlight) that yields a scripted
+// number of times before and after the real call. ResourceManager, collection.Cache and cacheNode hold their
+// flight group behind the SingleFlight interface; any implementation may be slow, so this only widens the set of
+// schedules (the window between entering the user's function and joining the flight, and between leaving the
+// flight and returning), never the semantics.
+type SlowSF struct {
+	DoFn   func(key string, fn func() (any, error)) (any, error)
+	DoExFn func(key string, fn func() (any, error)) (any, bool, error)
+	spins  []int
+	n      atomic.Int64
+}
+
+// NewSlowSF wraps do/doEx; spec is the section's `sfd` value: "-" / "" (no wrapper needed) or "a,b,c" yield counts
+// dealt round-robin.
+func NewSlowSF(spec string, do func(string, func() (any, error)) (any, error),
+	doEx func(string, func() (any, error)) (any, bool, error)) *SlowSF {
+	s := &SlowSF{DoFn: do, DoExFn: doEx}
+	if spec != "" && spec != "-" {
+		for _, f := range strings.Split(spec, ",") {
+			s.spins = append(s.spins, verifh.Atoi(f))
+		}
+	}
+	return s
+}
+
+func (s *SlowSF) delay() {
+	if len(s.spins) > 0 {
+		Spin(s.spins[int(s.n.Add(1))%len(s.spins)])
+	}
+}
+
+func (s *SlowSF) Do(key string, fn func() (any, error)) (any, error) {
+	s.delay()
+	v, err := s.DoFn(key, fn)
+	s.delay()
+	return v, err
+}
+
+func (s *SlowSF) DoEx(key string, fn func() (any, error)) (any, bool, error) {
+	s.delay()
+	v, f, err := s.DoExFn(key, fn)
+	s.delay()
+	return v, f, err
+}
+
+var stuckSections atomic.Int64 // sections of this test run in which some call never returned
+
 // Target is the object under test of one section and how one call is made on it.
 type Target struct {
 	// Invoke performs call c (key c.Key(), DoEx iff c.Ex()) with the user function fn and returns what the call
@@ -107,7 +154,12 @@ func RunSection(cfg verifh.Cfg, ops []string, mk func(cfg verifh.Cfg) Target) []
 	if p := cfg.Int("procs", 0); p > 0 {
 		defer runtime.GOMAXPROCS(runtime.GOMAXPROCS(p))
 	}
+	// a call that has not returned after 20 s (60 s thorough) is reported stuck; once a section of this run was
+	// stuck (only ever on a broken tree) the next ones wait 3 s, and WriteTrace stops after 5 stuck sections
 	timeout := time.Duration(verifh.Scale(20, 60)) * time.Second
+	if stuckSections.Load() > 0 && os.Getenv("VERIF_OPS_IN") == "" {
+		timeout = 3 * time.Second
+	}
 	out := make([]string, len(ops))
 	var calls []*Call
 	idx := map[*Call]int{}
@@ -329,10 +381,17 @@ func RunSection(cfg verifh.Cfg, ops []string, mk func(cfg verifh.Cfg) Target) []
 	}
 	mu.Lock()
 	defer mu.Unlock()
+	sectionStuck := !freeOk
+	defer func() {
+		if sectionStuck {
+			stuckSections.Add(1)
+		}
+	}()
 	for _, c := range calls {
 		if !c.done {
 			// never returned: deadlock or lost wake-up
 			c.stuck = true
+			sectionStuck = true
 			if c.inv == 0 {
 				c.inv = stamp.Add(1)
 			}
@@ -454,8 +513,8 @@ func Gen(r *verifh.Rng, nsec int, via string) []verifh.Section {
 		if mode == "rm" && via == "" && r.Chance(2, 3) {
 			ops = append(ops, "close")
 		}
-		if mode == "rm" && via == "" {
-			// delays between entering GetResource and the flight (and after it): 1..4 yield counts, dealt round-robin
+		if mode == "rm" {
+			// delays between entering GetResource / Take and the flight (and after it): 1..4 yield counts, dealt round-robin
 			sfd := "-"
 			if r.Chance(3, 4) {
 				var ds []string
@@ -488,6 +547,10 @@ func WriteTrace(t *testing.T, secs []verifh.Section, mk func(cfg verifh.Cfg) Tar
 	defer w.Flush()
 	nops := 0
 	for _, s := range secs {
+		if stuckSections.Load() >= 5 && os.Getenv("VERIF_OPS_IN") == "" {
+			t.Logf("verifh: 5 sections with calls that never returned; remaining sections not run")
+			break
+		}
 		fmt.Fprintf(w, "begin %s\n", s.Cfg)
 		obs := RunSection(verifh.ParseCfg(s.Cfg), s.Ops, mk)
 		for i, op := range s.Ops {
